@@ -27,6 +27,28 @@ func c13prop(r *simkit.Run) {
 	rates := drawRates(rt, true, maxAvg)
 	drawRateSource(rt)
 	nsrc := rapid.IntRange(1, 4).Draw(rt, "sources")
+	// by draw the caller's rate extractor changes plan while sources are being served: the same periods with
+	// other averages and bursts (the source's buckets are kept and re-parameterised) or a different set. Every
+	// clause is then judged under the plan in force, for a source whose buckets already carry that plan.
+	plans := [][]rateSpec{rates}
+	cur := 0
+	if rapid.IntRange(0, 2).Draw(rt, "plans-change") == 0 {
+		for k := rapid.IntRange(1, 2).Draw(rt, "more-plans"); k > 0; k-- {
+			if rapid.IntRange(0, 2).Draw(rt, "fresh-plan") == 0 {
+				plans = append(plans, drawRates(rt, true, maxAvg))
+				continue
+			}
+			var v []rateSpec
+			for _, b := range rates {
+				avg := int64(rapid.IntRange(1, int(maxAvg)).Draw(rt, "plan-average"))
+				v = append(v, rateSpec{b.period, avg, int64(rapid.IntRange(1, int(5*avg)).Draw(rt, "plan-burst"))})
+			}
+			plans = append(plans, v)
+		}
+		rateOverride = func() ([]rateSpec, error) { return plans[cur], nil }
+		defer func() { rateOverride = nil }()
+	}
+	planChanges := 0
 	_, unfreeze := freeze(rt)
 	defer unfreeze()
 	start := clock.Now()
@@ -39,6 +61,7 @@ func c13prop(r *simkit.Run) {
 		silentTill time.Duration // retry probe pending: source stays silent until then
 		retryAmt   int64
 		pending    bool
+		plan       int // plan in force at the last access
 	}
 	st := make([]srcState, nsrc)
 	for i := range st {
@@ -54,8 +77,9 @@ func c13prop(r *simkit.Run) {
 		t := now()
 		name := srcName(src)
 		ra := A.do(name, amount)
-		first := st[src].lastAccess != t
+		first := st[src].lastAccess != t || st[src].plan != cur // the first request under a new plan re-parameterises the buckets: the twin sees it too
 		st[src].lastAccess = t
+		st[src].plan = cur
 		cls := ra.class()
 		h.Int(int64(src))
 		h.Int(int64(t))
@@ -136,11 +160,24 @@ func c13prop(r *simkit.Run) {
 				free = append(free, s)
 			}
 		}
-		kind := rapid.SampledFrom([]string{"req", "req", "req", "flood", "step", "step", "idle-refill", "over-burst", "paced-flood"}).Draw(rt, "op")
+		kind := rapid.SampledFrom([]string{"req", "req", "req", "flood", "step", "step", "idle-refill", "over-burst", "paced-flood", "plan-change"}).Draw(rt, "op")
 		if len(free) == 0 {
 			kind = "step"
 		}
 		switch kind {
+		case "plan-change":
+			// not while a retry probe is pending: the advertised delay was computed under the plan then in force
+			if len(plans) > 1 && len(free) == nsrc {
+				if n := rapid.IntRange(0, len(plans)-1).Draw(rt, "plan"); n != cur {
+					cur = n
+					rates = plans[cur]
+					mb = minBurst(rates)
+					planChanges++
+					if len(trace) < 80 {
+						trace = append(trace, fmt.Sprintf("t=%v plan -> %v", now(), rates))
+					}
+				}
+			}
 		case "req", "over-burst":
 			src := free[rapid.IntRange(0, len(free)-1).Draw(rt, "src")]
 			amount := int64(1)
@@ -214,7 +251,7 @@ func c13prop(r *simkit.Run) {
 		case "idle-refill":
 			// stay idle for burst x (period/average) of the slowest rate, then the full (smallest) burst is available at one instant
 			src := free[rapid.IntRange(0, len(free)-1).Draw(rt, "src")]
-			if st[src].lastAccess < 0 {
+			if st[src].lastAccess < 0 || st[src].plan != cur {
 				continue
 			}
 			wait := refillTime(rates) - (now() - st[src].lastAccess)
@@ -266,6 +303,7 @@ func c13prop(r *simkit.Run) {
 	r.ProbeN("retry-after-advertised-delay", nRetry)
 	r.ProbeN("idle-refill", nIdle)
 	r.ProbeN("paced-flood", nPaced)
+	r.ProbeN("plan-changed-between-requests", planChanges)
 	r.ProbeN("amount>burst", nErr)
 	if len(rates) > 1 {
 		r.Probe("multi-rate")
